@@ -25,6 +25,10 @@ pub enum Fam {
     Dgram,
     /// the connection task must not end while the scenario is healthy
     Alive,
+    /// C15: bind requests resolve exactly once with the peer's decision
+    Bind,
+    /// C08: outcomes after the connection ended (appendix A.3)
+    End,
     /// panics anywhere in the repository's code
     Panic,
 }
@@ -132,6 +136,19 @@ pub struct Meta {
     pub stream_is_bridge: bool,
     /// single-threaded engine: log order == execution order (enables rules that need it)
     pub sim: bool,
+    pub binds: Vec<BindMeta>,
+    /// expected result of the connection task of endpoint 0 after the injected fault (prefix match), if any
+    pub expect_task_ret: Option<String>,
+}
+
+#[derive(Clone, Debug)]
+pub struct BindMeta {
+    pub id: u64,
+    pub from: u8,
+    pub port: u16,
+    /// "accept" | "reject" | "drop" | "never"
+    pub answer: &'static str,
+    pub responder_enabled: bool,
 }
 
 pub fn analyse(log: &[Rec], fams: &[Fam], meta: &Meta) -> Analysis {
@@ -148,6 +165,11 @@ pub fn analyse(log: &[Rec], fams: &[Fam], meta: &Meta) -> Analysis {
     let mut granted: HashMap<(usize, u32), u32> = HashMap::new();
     // (ep, flow): ep received Connect(flow) and has not yet answered it
     let mut handshake_out: std::collections::HashSet<(usize, u32)> = std::collections::HashSet::new();
+    let mut bind_wire_flow: HashMap<u16, u32> = HashMap::new();
+    let mut bind_replied: HashMap<u64, String> = HashMap::new();
+    let mut bind_ret_seen: HashMap<u64, u32> = HashMap::new();
+    let mut teardown = false;
+    let mut task_ret_at: [Option<usize>; 2] = [None, None];
     let mut flows_seen: std::collections::HashSet<(usize, u32)> = std::collections::HashSet::new();
     let mut conn_end = false;
     let mut conn_end_ep = [false; 2];
@@ -174,6 +196,14 @@ pub fn analyse(log: &[Rec], fams: &[Fam], meta: &Meta) -> Analysis {
                 }
             }
             Ev::TaskRet { ep, res } => {
+                task_ret_at[*ep as usize] = Some(i);
+                if *ep == 0 {
+                    if let Some(want) = &meta.expect_task_ret {
+                        if !res.starts_with(want.as_str()) {
+                            cx.fail(Fam::End, i, format!("task-result|{res}|want={want}"), format!("ep0: the connection task returned {res}; the injected cause prescribes {want}"));
+                        }
+                    }
+                }
                 if !conn_end {
                     cx.fail(Fam::Alive, i, format!("task-ended|{res}"), format!("ep{ep}: the connection task returned {res} although nobody closed the connection"));
                 }
@@ -273,6 +303,10 @@ pub fn analyse(log: &[Rec], fams: &[Fam], meta: &Meta) -> Analysis {
                             }
                         }
                     }
+                    Wm::Bind { id, port, .. } => {
+                        bind_wire_flow.insert(*port, *id);
+                        cnt.add("bind_sent", 1);
+                    }
                     Wm::Dgram { .. } => {
                         cnt.add("dgram_on_wire", 1);
                         dg_wire_sent[e] += 1;
@@ -356,6 +390,9 @@ pub fn analyse(log: &[Rec], fams: &[Fam], meta: &Meta) -> Analysis {
                             check_initial_credit(&mut cx, i, st, e, *sid, reused);
                         } else {
                             cnt.add("opens_failed", 1);
+                            if conn_end && err != "Closed" {
+                                cx.fail(Fam::End, i, format!("open-error|{err}"), format!("ep{e} s{sid}: new_stream_channel failed with {err} instead of Closed after the connection ended"));
+                            }
                             if !conn_end {
                                 cx.fail(Fam::Progress, i, format!("open-failed|{err}"), format!("ep{e} s{sid}: new_stream_channel failed with {err} on a healthy connection"));
                             }
@@ -405,6 +442,11 @@ pub fn analyse(log: &[Rec], fams: &[Fam], meta: &Meta) -> Analysis {
                         };
                         match res {
                             WRes::Ok(m) => {
+                                if let (Some(t), Some(c)) = (task_ret_at[e], call_at) {
+                                    if c > t && meta.sim {
+                                        cx.fail(Fam::End, i, "write-after-teardown-succeeded", format!("ep{e} s{sid}: a write invoked after the connection task had returned succeeded"));
+                                    }
+                                }
                                 st.s[e].accepted += *m as u64;
                                 st.s[e].ok_writes += 1;
                                 if shut_before_call {
@@ -428,6 +470,7 @@ pub fn analyse(log: &[Rec], fams: &[Fam], meta: &Meta) -> Analysis {
                             WRes::Other(err) => {
                                 st.s[e].failed_writes += 1;
                                 cx.fail(Fam::Eos, i, "write-error-kind", format!("ep{e} s{sid}: write failed with {err} instead of BrokenPipe"));
+                                cx.fail(Fam::End, i, "write-error-kind", format!("ep{e} s{sid}: write failed with {err} instead of BrokenPipe"));
                             }
                         }
                     }
@@ -437,6 +480,7 @@ pub fn analyse(log: &[Rec], fams: &[Fam], meta: &Meta) -> Analysis {
                         if let Some(off) = bad_at {
                             let msg = format!("ep{e} s{sid}: byte at offset {off} of the received stream is not the byte the peer wrote at that offset (corruption / reordering / loss / cross-talk)");
                             cx.fail(Fam::Bytes, i, "content-mismatch", msg.clone());
+                            cx.fail(Fam::End, i, "content-mismatch", msg.clone());
                             cx.fail(Fam::Abort, i, "bystander-content-mismatch", msg);
                         }
                         if *k > 0 {
@@ -476,6 +520,7 @@ pub fn analyse(log: &[Rec], fams: &[Fam], meta: &Meta) -> Analysis {
                     }
                     Api::ReadErr { err } => {
                         cx.fail(Fam::Eos, i, "read-error", format!("ep{e} s{sid}: read failed with {err}"));
+                        cx.fail(Fam::End, i, "read-error", format!("ep{e} s{sid}: read failed with {err} instead of returning the delivered data and then end-of-stream"));
                     }
                     Api::ShutCall => {
                         if let Some(st) = streams.get_mut(sid) {
@@ -519,6 +564,12 @@ pub fn analyse(log: &[Rec], fams: &[Fam], meta: &Meta) -> Analysis {
                         if long && res != "DatagramHostTooLong" {
                             cx.fail(Fam::Dgram, i, "long-host-not-refused", format!("ep{e}: send_datagram with a {}-byte target host returned {res} instead of DatagramHostTooLong", dg_host_len[id]));
                         }
+                        if !long && res != "Ok" && res != "Closed" {
+                            cx.fail(Fam::End, i, format!("send-datagram-error|{res}"), format!("ep{e}: send_datagram failed with {res} instead of Closed"));
+                        }
+                        if !long && res == "Ok" && meta.sim && task_ret_at[e].is_some() {
+                            cx.fail(Fam::End, i, "send-datagram-after-teardown-succeeded", format!("ep{e}: send_datagram succeeded although the connection task had already returned"));
+                        }
                         if !long && res != "Ok" && !conn_end {
                             cx.fail(Fam::Dgram, i, format!("send-refused|{res}"), format!("ep{e}: send_datagram with a {}-byte target host failed with {res} on a healthy connection", dg_host_len.get(id).copied().unwrap_or(0)));
                         }
@@ -558,6 +609,73 @@ pub fn analyse(log: &[Rec], fams: &[Fam], meta: &Meta) -> Analysis {
                     }
                     Api::MuxDrop => {
                         conn_end = true;
+                    }
+                    Api::Teardown => teardown = true,
+                    Api::AcceptErr { err } => {
+                        if err != "Closed" {
+                            cx.fail(Fam::End, i, format!("accept-error|{err}"), format!("ep{e}: accept_stream_channel failed with {err} instead of Closed"));
+                        }
+                        if !conn_end && !teardown {
+                            cx.fail(Fam::Alive, i, "accept-closed-early", format!("ep{e}: accept_stream_channel returned {err} although the connection is up"));
+                        }
+                    }
+                    Api::DgRecvErr { err } => {
+                        if err != "Closed" {
+                            cx.fail(Fam::End, i, format!("get-datagram-error|{err}"), format!("ep{e}: get_datagram failed with {err} instead of Closed"));
+                        }
+                    }
+                    Api::BindNextErr { err } => {
+                        if err != "Closed" {
+                            cx.fail(Fam::End, i, format!("next-bind-error|{err}"), format!("ep{e}: next_bind_request failed with {err} instead of Closed"));
+                        }
+                    }
+                    Api::BindSeen { id, fields_ok, flow } => {
+                        cnt.add("bind_seen", 1);
+                        match meta.binds.iter().find(|b| b.id == *id) {
+                            None => cx.fail(Fam::Bind, i, "bind-unknown", format!("ep{e}: next_bind_request showed a request that matches nothing the peer asked for")),
+                            Some(b) => {
+                                if !*fields_ok {
+                                    cx.fail(Fam::Bind, i, "bind-fields", format!("ep{e}: bind request #{id} was shown with a different type, host or port than requested"));
+                                }
+                                if bind_wire_flow.get(&b.port) != Some(flow) {
+                                    cx.fail(Fam::Bind, i, "bind-flow-id", format!("ep{e}: bind request #{id} shown under flow id {flow:x}, the requester's Bind frame carried {:?}", bind_wire_flow.get(&b.port)));
+                                }
+                            }
+                        }
+                    }
+                    Api::BindReply { id, how } => {
+                        bind_replied.insert(*id, how.clone());
+                    }
+                    Api::BindRet { id, res } => {
+                        cnt.add("bind_resolved", 1);
+                        *bind_ret_seen.entry(*id).or_default() += 1;
+                        let Some(b) = meta.binds.iter().find(|b| b.id == *id) else { continue };
+                        let ended = conn_end || teardown;
+                        let decided = bind_replied.get(id).cloned();
+                        let want: Option<&str> = if !b.responder_enabled {
+                            Some("false")
+                        } else {
+                            match decided.as_deref() {
+                                Some("accept") => Some("true"),
+                                Some(_) => Some("false"),
+                                None => None,
+                            }
+                        };
+                        match (want, res.as_str()) {
+                            (Some(w), r) if r == w => {
+                                if w == "true" {
+                                    cnt.add("bind_accepted", 1);
+                                }
+                            }
+                            (_, "Closed") | (_, "false") if ended => {}
+                            (Some(w), r) => cx.fail(Fam::Bind, i, format!("bind-wrong-result|decision={}|got={r}", decided.as_deref().unwrap_or(if b.responder_enabled { "none" } else { "binds-disabled" })),
+                                format!("ep{e}: bind request #{id} resolved with {r}; the peer application's decision for that very request prescribes {w}")),
+                            (None, r) => cx.fail(Fam::Bind, i, format!("bind-answered-while-undecided|got={r}"),
+                                format!("ep{e}: bind request #{id} resolved with {r} although the peer application has neither answered nor dropped it and the connection is up")),
+                        }
+                        if ended && !matches!(res.as_str(), "true" | "false" | "Closed") {
+                            cx.fail(Fam::End, i, format!("bind-error|{res}"), format!("ep{e}: request_bind failed with {res} after the connection ended"));
+                        }
                     }
                     _ => {}
                 }
